@@ -103,10 +103,17 @@ fn run(payload: &str) -> String {
                 "ok".to_string()
             }
             Some(Op::Get(k, owned)) => {
+                // a borrowed lookup key is, when possible, a SLICE OF THE BUFFER of a key that was set borrowed earlier
+                // (same start address, shorter or equal length - a path looked up by its prefixes): names are equal
+                // when their bytes are, not when their addresses are
+                let sliced: Option<&str> = ops.iter().flatten().find_map(|o| match o {
+                    Op::Set(k2, false, _) if k2.len() >= k.len() && k2.is_char_boundary(k.len()) && k2[..k.len()] == **k => Some(&k2[..k.len()]),
+                    _ => None,
+                });
                 let r: Option<&FluentValue> = if *owned {
                     args.get(k.clone())
                 } else {
-                    args.get(k.as_str())
+                    args.get(sliced.unwrap_or(k.as_str()))
                 };
                 match r {
                     Some(v) => format!("some={}", canon_val(v)),
